@@ -173,6 +173,28 @@ class TableOracle:
                     if ch:
                         return self.viol('datagram_changed_other_ike_sa', {'exchange': EXCH.get(h['exch'], str(h['exch']))},
                                          f'{N}: datagram for IKE_SA {want.hex()} changed other IKE_SAs: {ch[:5]}')
+        # ---- every datagram leaves from the local address of the IKE_SA it belongs to, towards that IKE_SA's peer (requests), or back to
+        #      where the request came from, from the address it came to (responses)
+        for rec in self.wire.emitted_in_step(N, self.w.steps):
+            h = rec['h']
+            if h is None:
+                continue
+            mine = h['spi_i'] if (h['I'] and True) else h['spi_r']
+            sa = next((x for x in list(tab) + cur['objs'] if x.my_spi == mine), None)
+            if sa is None:
+                continue
+            self._r('addresses_judged')
+            if len(node.addrs) > 1:
+                self._r('addresses_judged_multihomed')
+            if not h['R'] and (rec['src'], rec['dst']) != (str(sa.my_addr), str(sa.peer_addr)):
+                return self.viol('request_between_wrong_addresses', {'exchange': EXCH.get(h['exch'], str(h['exch']))},
+                                 f'{N}: request of IKE_SA {sa.my_spi.hex()} ({sa.my_addr} <-> {sa.peer_addr}) left from {rec["src"]} to {rec["dst"]}')
+            if h['R']:
+                came = [(a, src) for a, (d, src) in cur['heads'] if (parse_header(d) or {}).get('id') == h['id']]
+                if came and (rec['src'], rec['dst']) not in [(a, src[0]) for a, src in came] and rec['src'] != str(sa.my_addr):
+                    return self.viol('response_from_wrong_address', {'exchange': EXCH.get(h['exch'], str(h['exch']))},
+                                     f'{N}: response of IKE_SA {sa.my_spi.hex()} ({sa.my_addr} <-> {sa.peer_addr}) left from {rec["src"]} to {rec["dst"]}; '
+                                     f'the request came to {came}')
         # ---- routing of kernel EXPIREs
         for raw in cur['kq']:
             if len(raw) < 16 or struct.unpack('<H', raw[4:6])[0] != K['XFRM_MSG_EXPIRE']:
@@ -234,13 +256,19 @@ def generate(seed, tier):
     ops = sc['ops']
     if sc['meta']['family'] == 4 and r.random() < 0.4:
         # third node C; A gets a second connection (transport, host-to-host, so A's policies cannot collide)
-        ca2, cc, meta2 = configs.make_pair(r, {'profile': 'fast', 'entries': 1, 'family': 4, 'addr_pair': ('10.0.0.1', '10.0.0.3'),
-                                               'index_base': 50})
+        # ... over A's only address, over a second IPv4 address of A, or over an IPv6 address of A (multi-homed / dual-stack daemon: one UDP
+        # socket per address, every IKE_SA bound to the pair of addresses its first message used)
+        homing = r.choice(['same', 'second_v4', 'v6'])
+        a2, c_addr, fam2 = {'same': ('10.0.0.1', '10.0.0.3', 4), 'second_v4': ('10.0.1.1', '10.0.1.3', 4), 'v6': ('fd00::1', 'fd00::3', 6)}[homing]
+        ca2, cc, meta2 = configs.make_pair(r, {'profile': 'fast', 'entries': 1, 'family': fam2, 'addr_pair': (a2, c_addr), 'index_base': 50})
         conn = copy.deepcopy(ca2['to-b'])
         for i, p in enumerate(conn['protect']):
             p['index'] = 5000 + i
         sc['nodes']['A']['conf']['to-c'] = conn
-        sc['nodes']['C'] = {'addrs': ['10.0.0.3'], 'conf': {'to-a': cc['to-a']}}
+        if a2 not in sc['nodes']['A']['addrs']:
+            sc['nodes']['A']['addrs'] = sc['nodes']['A']['addrs'] + [a2]
+        sc['nodes']['C'] = {'addrs': [c_addr], 'conf': {'to-a': cc['to-a']}}
+        sc['meta']['homing'] = homing
         ops.append({'t': round(r.uniform(0, 0.9), 3), 'op': 'start', 'node': 'C'})
         rc = next(iter(configs.read_conf({'to-a': cc['to-a']}).values()))
         ra = configs.read_conf({'to-c': conn})
